@@ -13,7 +13,7 @@ import time
 
 from .core import Ctx
 
-KINDS = ("coroVal", "coroRaise", "plainNone", "plainVal", "plainRaise", "notCallable", "plainZero", "plainFalse", "plainEmpty", "plainWraps", "shadowPlain", "shadowCoro")
+KINDS = ("coroVal", "coroRaise", "plainNone", "plainVal", "plainRaise", "notCallable", "plainZero", "plainFalse", "plainEmpty", "plainWraps", "shadowPlain", "shadowCoro", "coroForget")
 
 
 class Wrapped:
@@ -45,6 +45,11 @@ class Wrapped:
         self.log.append({"a": "exec", "i": i, "thread": "owner" if threading.get_ident() == self.owner_ident else "caller"})
 
     async def coroVal(self, i):
+        self._rec(i)
+        await asyncio.sleep(0)
+        return i
+
+    async def coroForget(self, i):
         self._rec(i)
         await asyncio.sleep(0)
         return i
@@ -201,6 +206,8 @@ def scenario(calls, close_before=False, via_eventloopthread=False, burst=1, hold
         if time.monotonic() - t0 > 10.0:
             blocked[0] = 1
         log.append(ev)
+        if ev["ret"] == "pending" and kind == "coroForget" and ev["src"] == "other":
+            return            # the caller never awaits what the call returned: the call was made all the same
         if ev["ret"] == "pending":
             fin = {"a": "final", "i": i, "ret": "", "val": -1, "stopped": 0}
             try:
